@@ -2,7 +2,7 @@
    Property theorems only; the model is Bac.Net (no proofs), the proofs live in Bac.NetFacts.
    Local theorems hold for EVERY node state, adapter, and arriving frame of the model.  `Fwd` marks the copies made
    by the forwarding section of process_npdu (netservice.py:607-676), `Tx` every other frame a node emits. *)
-From Bac Require Import Base Net NetFacts NetTerm NetTerm2 NetReply NetOnce NetRoute NetArrive NetLocal NetBcast NetTree NetFlood NetRound NetCert NetLbc.
+From Bac Require Import Base Net NetFacts NetTerm NetTerm2 NetReply NetOnce NetRoute NetArrive NetLocal NetBcast NetTree NetFlood NetRound NetCert NetLbc NetAnn.
 Open Scope N_scope.
 
 (* each router hop lowers the hop count by exactly one, and keeps payload and message type *)
@@ -439,6 +439,22 @@ Theorem C06_local_broadcast_once : forall w src ws s smac data,
 Proof. exact local_broadcast_once. Qed.
 Print Assumptions C06_local_broadcast_once.
 
+(* C06_announcements_terminate, PARTIAL (loop-free internetworks; the general statement is refuted by
+   C06_cycle_discovery_refuted): an I-Am-Router-To-Network broadcast in flight on LAN L0, sent by member x0, with
+   nothing parked anywhere: the relays stop, no LAN carries more than one copy (NoDup of the LANs of the frames in
+   the trace), and nothing is handed to any application.  Missing for full cold discovery on trees: the
+   Who-Is-Router-To-Network relays and the release of parked packets interleaved with the announcements. *)
+Theorem C06_announcements_terminate_partial : forall w L0 lv up par x0 m0 nets,
+  internet_ok (lans w) (nodes w) -> tree_from (lans w) (nodes w) L0 lv up par ->
+  In x0 (lan_members (lans w) L0) -> port_of (nodes w) x0 = Some (L0, m0) ->
+  Forall (fun d => d < 65536) nets ->
+  (forall who wn, nth_error (nodes w) who = Some wn -> pending (w_node wn) = []) ->
+  queue w = [mkFrame L0 m0 LBcast (i_am nets)] ->
+  exists k osn, queue (run k w) = [] /\ trace (run k w) = osn ++ trace w /\
+                hearers osn = [] /\ NoDup (frame_lans osn).
+Proof. exact announcement_terminates_on_tree. Qed.
+Print Assumptions C06_announcements_terminate_partial.
+
 (* C06_reply_routable is FALSE of the code when the originator is an application on a router: router with ports
    (net 1, net 2), local adapter = net 2, broadcasts globally; the station on net 1 is shown the router's net-1
    address in local form; its reply to that address arrives on the non-local adapter and is handed to nobody. *)
@@ -807,6 +823,25 @@ Example C06_tree4_local_broadcast_once :
 Proof.
   eapply (local_broadcast_once tree4 5%nat _ 4 [1] [16; 99; 4] C06_tree4_internet_ok); try reflexivity.
   unfold station_shape. cbn. do 3 eexists. repeat split; auto.
+Qed.
+
+(* router R1 of tree4 announces network 4 on network 3: certificate from the checkers, theorem applies *)
+Example C06_tree4_announcement :
+  let w := mkWorld (nodes tree4) (lans tree4) [mkFrame 3 [11] LBcast (i_am [4])] [] in
+  exists k osn, queue (run k w) = [] /\ trace (run k w) = osn ++ trace w /\
+                hearers osn = [] /\ NoDup (frame_lans osn).
+Proof.
+  intro w.
+  set (lv3 := fun L : N => if L =? 3 then 0%nat else 1%nat).
+  set (up3 := fun who : nat => match who with O => 2%nat | _ => 0%nat end).
+  set (par3 := fun L : N => if L =? 1 then (0, 0)%nat else if L =? 2 then (0, 1)%nat else (1, 1)%nat).
+  assert (Hok : internet_okb (lans tree4) (nodes tree4) = true) by (vm_compute; reflexivity).
+  assert (Hfrom : tree_fromb (lans tree4) (nodes tree4) 3 lv3 up3 par3 = true) by (vm_compute; reflexivity).
+  destruct (C06_certificate_checkers_sound _ _ Hok) as (Hio & _ & Hf).
+  eapply (announcement_terminates_on_tree w 3 lv3 up3 par3 (1, 0)%nat [11] [4] Hio (Hf _ _ _ _ Hfrom)); try reflexivity.
+  - cbn. auto.
+  - repeat constructor.
+  - intros who wn H. cbn [nodes] in H. do 7 (destruct who as [|who]; [inversion H; reflexivity|]). destruct who; discriminate.
 Qed.
 
 Example C06_tree_unicast_example :
